@@ -75,7 +75,7 @@ package crypto
 //@ ensures forall j in 0..32: (*k)[j] == 0
 
 //@ func DeriveSessionKey
-//@ prop C03
+//@ prop C01 C03
 //@ check bounds alloc
 //@ at call hkdf.New assert len($1) == 32 && offset($1) == 0 && arr($1) == sharedSecret
 //@ at call hkdf.New assert len($2) == 72 && be64($2, 0) == streamID
